@@ -274,14 +274,18 @@ def tree_in_guard(t, depth=0, under_union=False, parent_opt=False):
         if c.opt and (multi or (t.opt and len(t.children) == 1 and t.cont == "n")):
             return False
         if not c.opt and len(c.children) == 1 and c.cont == "n":
-            # transparent single-child wrapper: its child's optional surfaces one level up
-            if any(g.opt for g in c.children) and (multi or t.opt):
+            # transparent single-child wrappers (any number of them): the optional of what they wrap surfaces here
+            if surfaces_opt(c.children[0]) and (multi or t.opt):
                 return False
         if not tree_in_guard(c):
             return False
     if len(t.children) == 1 and t.cont == "n" and t.opt and not tree_in_guard_single(t.children[0]):
         return False
     return True
+
+
+def surfaces_opt(c):
+    return c.opt or (len(c.children) == 1 and c.cont == "n" and surfaces_opt(c.children[0]))
 
 
 def tree_in_guard_single(c):
